@@ -458,7 +458,7 @@ func TestVerifProbeEvalloop(t *testing.T) {
 
 	// loop scenarios: built serially (viper), run in parallel on separate Coordinators with the real clock
 	VerifSetClock(0)
-	maxPar := 16
+	maxPar := 32
 	if v, err := strconv.Atoi(os.Getenv("VERIF_PAR")); err == nil && v > 0 {
 		maxPar = v
 	}
